@@ -257,6 +257,10 @@ A64Exec(O, st, ins) ==
         rng == IF AddImmOk(i) THEN {} ELSE {"A64Range"}
     IN [SetReg(st, RK(ops[1]), IF ~IsInt(c) THEN JunkR ELSE IF m = "add" THEN IntR(c.a + i) ELSE IntR(c.a - i))
           EXCEPT !.bad = @ \cup rng]
+  ELSE IF m = "and" /\ n = 3 /\ ops[1].t = "r" /\ ops[2].t = "r" /\ ops[3].t = "i" THEN
+    LET c == st.reg[RK(ops[2])].v
+        i == ops[3].off
+    IN SetReg(st, RK(ops[1]), IF IsInt(c) /\ i < 0 /\ IsPow2(-i) THEN IntR(c.a - (c.a % (-i))) ELSE JunkR)
   ELSE IF m = "ret" /\ n = 1 /\ ops[1].t = "r" THEN
     LET r == st.reg[RK(ops[1])] IN [st EXCEPT !.pc = IF r.w >= 8 THEN r.v ELSE Junk]
   ELSE Fault(st, "Unknown")
